@@ -634,7 +634,9 @@ def c15(tier, replay_file=None):
             keys = tool_keys(exe, wd)
             for k in keys:
                 cases.append({"id": "key-%s" % k["name"], "layout": [{"from": [k["name"]], "to": [k["name"]], "repeat": {"kind": "Special", "keys": [k["name"]], "delay": 1, "interval": 1}, "absorbing": []},
-                                                                    {"from": ["A", k["name"]] if k["name"] != "A" else ["B", "A"], "to": [], "repeat": {"kind": "Normal"}, "absorbing": ["A" if k["name"] != "A" else "B"]}]})
+                                                                    {"from": ["A", k["name"]] if k["name"] != "A" else ["B", "A"], "to": [], "repeat": {"kind": "Normal"}, "absorbing": ["A" if k["name"] != "A" else "B"]},
+                                                                    # ... and the key itself in the absorbing list (every position a key name is written in)
+                                                                    {"from": [k["name"], "C"] if k["name"] != "C" else ["C", "D"], "to": ["E"], "repeat": {"kind": "Disabled"}, "absorbing": [k["name"]]}]})
             # every converted layout of the C13 family, the built-ins and the README examples: what the converter really produces
             fpath, g2 = generate_fancy(wd, 1 if tier == "quick" else 2, out="fancy.ndjson")
             nf = 0
@@ -708,7 +710,9 @@ def c15(tier, replay_file=None):
 MUT_VALUES = [None, True, 0, -1, 1.5, 1e99, 2147483648, -2147483649, 4294967297, "", "A", "a", "@x", "@s", "NOSUCHKEY", "LEFTSHIFT", "1", "K1",
               [], ["A", "A"], ["LEFTSHIFT", "LEFTSHIFT", "A"], ["@s", "@s", "A"], [["A"]], {}, {"row": "A"}, {"row": "NOPE"}, {"row": 1}, {"letters": "ab"},
               {"letters": "é"}, {"letters": "abcdefghijklmnopqrstuvwxyz"}, {"letters": 5}, {"Special": {}}, {"Special": {"keys": "A", "delay_ms": "x", "interval_ms": 1}},
-              {"Special": {"keys": ["LEFTSHIFT", "LEFTSHIFT"], "delay_ms": -5, "interval_ms": 0}}, "Disabled", "x" * 300]
+              {"Special": {"keys": ["LEFTSHIFT", "LEFTSHIFT"], "delay_ms": -5, "interval_ms": 0}}, "Disabled", "x" * 300,
+              # one-character strings of many Unicode kinds (digits that are not ASCII digits, fractions, letters, marks, symbols, controls, astral)
+              "\u00b2", "\u00bd", "\u0663", "\u2167", "\uff15", "\u00e9", "\u00df", "\u0301", "\u221a", "\u0007", "\U0001f600", "0", "9", ":", "/", " "]
 
 
 def json_paths(v, cur=()):
@@ -921,7 +925,7 @@ def c14(tier, replay_file=None):
         gen, dist, counters = e1.run_model(res, wd, shards, ["C14", "RA"], known_ids(prop), [], prop, timeout=1500 if tier == "quick" else 7200)
         res.coverage = {
             "evaluations": judged + stats["layouts"], "distinct_nontrivial": nontriv,
-            "rule": "loader: every program of the C13 family in two spellings; structure-aware mutations (%d replacement values, deletion, duplication/extra field) at every JSON path of %d seed "
+            "rule": "loader: every program of the C13 family in two spellings; structure-aware mutations (%d replacement values, among them one-character strings of many Unicode kinds, deletion, duplication/extra field) at every JSON path of %d seed "
                     "programs (family members, built-ins, README examples); every prefix of %d pretty-printed texts, a few non-JSON byte strings and random byte-level damage (insert/delete/replace) of compact texts, through load_layout_from_file. "
                     "Non-trivial = inputs the loader accepted. Mapper: a three-mapping layout per key name the tool knows (the key as last trigger key, as output and as repeat key) and %d distinct accepted layouts (of %d) installed in the real mapper and driven with every event sequence over "
                     "their first keys + a foreign key, <= 3 keys held (states/transitions below); a panic anywhere is recorded under catch_unwind and judged by TLC."
